@@ -112,3 +112,21 @@ Example C16_dtd_default_ampersand :
   = Some (Some (lit "R&D")).
 Proof. exact dtd_default_ampersand. Qed.
 Print Assumptions C16_dtd_default_ampersand.
+
+Theorem C16_dtd_repeated_choice_member_outside_refuted :
+  option_map rep_confined (cm_of_raw w_rep_dup) = Some true /\
+  option_map rep_names_unique (cm_of_raw w_rep_dup) = Some false /\
+  option_map (fun dc => map (fun a => (a_name a, a_max a, a_choice a)) (build_content dc no_kwargs [])) (parse_content w_rep_dup)
+  = Some [(lit "f", Some 1%N, None); (lit "Tag", Some 1%N, None);
+          (lit "Tag", Some Gen.DtdTables.sys_maxsize, Some [true; true]); (lit "k2", Some Gen.DtdTables.sys_maxsize, Some [true; true])].
+Proof. exact dtd_repeated_choice_member_outside. Qed.
+Print Assumptions C16_dtd_repeated_choice_member_outside_refuted.
+
+Theorem C16_dtd_same_name_in_two_choices_refuted :
+  option_map (fun dc => choice_dups_ok (build_content dc no_kwargs [])) (parse_content w_dup_choice) = Some false /\
+  option_map (fun dc => map (fun a => (a_name a, a_max a, a_choice a)) (build_content dc no_kwargs [])) (parse_content w_dup_choice)
+  = Some [(lit "b", Some 1%N, Some [false]); (lit "o", Some 1%N, Some [false]);
+          (lit "b", Some 1%N, Some [true]); (lit "c", Some 1%N, Some [true])] /\
+  option_map (fun m => maxcount m (lit "b")) (cm_of_raw w_dup_choice) = Some (Some 2%nat).
+Proof. exact dtd_same_name_in_two_choices. Qed.
+Print Assumptions C16_dtd_same_name_in_two_choices_refuted.
